@@ -9,6 +9,11 @@ from . import base_namespace
 from . import packet
 
 default_logger = logging.getLogger('socketio.client')
+
+# key under which the ACK id counter is kept in a callbacks dictionary; it is not
+# an integer, so it cannot collide with an ACK id received from the other side
+ACK_ID_COUNTER = object()
+
 reconnecting_clients = []
 
 
@@ -277,8 +282,8 @@ class BaseClient:
         """Generate a unique identifier for an ACK packet."""
         namespace = namespace or '/'
         if namespace not in self.callbacks:
-            self.callbacks[namespace] = {0: itertools.count(1)}
-        id = next(self.callbacks[namespace][0])
+            self.callbacks[namespace] = {ACK_ID_COUNTER: itertools.count(1)}
+        id = next(self.callbacks[namespace][ACK_ID_COUNTER])
         self.callbacks[namespace][id] = callback
         return id
 
